@@ -2,7 +2,6 @@
 from vx.assemble import Fn, Type, Raw, Loop, ClosureRw
 
 PROPERTIES = ['C14']
-USES = 'use vstd::std_specs::iter::IteratorSpec;\nuse std::sync::Arc;\n'
 HEADER = '#![feature(allocator_api)]'
 STDMODEL = ['iter.rs', 'hash.rs', 'std.rs']
 RESP = 'cedar-policy-core/src/tpe/response.rs'
